@@ -58,6 +58,22 @@ pub fn items() -> Vec<Item> {
             "let c: channel<string> = channel()\ntask {\n  var i = 0\n  while i < 3 {\n    c.write(\"a\" .. i)\n    i = i + 1\n  }\n}\ntask {\n  var i = 0\n  while i < 3 {\n    let pad = [i, i, i]\n    c.write(\"b\" .. pad.len() + i)\n    i = i + 1\n  }\n}\nvar k = 0\nvar acc = \"\"\nwhile k < 6 {\n  acc = acc .. c.read() .. \",\"\n  k = k + 1\n}\nprintln(acc)\n",
         ),
     ];
+    // a task keeps calling the host while main finishes / fails: how many of the task's calls happen
+    // before main ends legitimately depends on host-call timing, so outputs are NOT compared across
+    // schedules (deterministic = false); C11's status contract is what these programs are for
+    let host_tasks: [(&str, &str); 2] = [
+        (
+            "status:task-calls-host-while-main-finishes",
+            "task {\n  var k = 0\n  while k < 50 {\n    let r = vh_h1(k)\n    k = k + 1\n  }\n}\nvar i = 0\nwhile i < 6 {\n  i = i + 1\n}\n9\n",
+        ),
+        (
+            "status:task-calls-host-while-main-errors",
+            "task {\n  var k = 0\n  while k < 50 {\n    let r = vh_h1(k)\n    k = k + 1\n  }\n}\nvar i = 0\nwhile i < 6 {\n  i = i + 1\n}\nlet a = [1]\nlet z = a[i]\nz\n",
+        ),
+    ];
+    for (name, body) in host_tasks {
+        v.push(Item { name: name.into(), text: format!("use vh\n{body}"), inputs: vec![], lines: vec![], expect: None, deterministic: false });
+    }
     for (name, body) in races {
         v.push(Item { name: name.into(), text: format!("use vh\n{body}"), inputs: vec![], lines: vec![], expect: None, deterministic: true });
     }
